@@ -13,30 +13,53 @@ import vlib
 ID = "C17"
 LEVEL = "proof"
 HARNESS = "c17"
-LEAN_MODULES = ["NanoVerif.Props.C17"]
+LEAN_MODULES = ["NanoVerif.Props.C17", "NanoVerif.Proofs.PoolMonPos"]
 NS = "NanoVerif.Pool."
 OBLIGATIONS = [NS + t for t in [
     "task_bookkeeping", "executed_at_most_once", "done_implies_executed_once", "tnum_lt_size", "tnum_exclusive",
     "seq_runs_each_once_in_order", "map_returns_after_all_done", "raise_rethrows", "chunks_tile", "chunks_get",
     "no_lost_wakeup", "quiescent_complete",
+    # gap-closing round: section_t's lifetime, task shape, pool size, m_stop without the mutex, liveness
+    "map_exit_implies_all_ready", "exit_refines_cReturn", "swapped_section_exits_with_unfinished_task",
+    "every_index_invoked_once_even_if_some_throw", "pool_size_bounds", "stop_without_lock_loses_wakeup", "deadlock_free",
+    "progress_measure_decreases", "run_without_new_calls_bounded", "position_iff_ranges", "nops_eq_ranges_length",
+    "reachable2_invs", "ready_stable", "waiting_stable", "constructed_pool_quiescent_complete",
+    "locked_fine_grained_no_lost_wakeup", "fine_refines_atomic",
 ]]
 TRUSTED = [
     "Lean 4.33.0 kernel (core library only for this property; no Mathlib import)",
     "axioms: at most propext, Classical.choice, Quot.sound (audited per theorem on every run)",
     "hand-written protocol model NanoVerif/Model/Pool.lean of parallel.h/parallel.cpp (every critical section = one atomic event); "
     "tied to the code by trace validation: lock discipline + per-thread program order on the raw hook trace, folding, path of `step`, "
-    "quiescent-complete final state (Pool.checkTrace, run by the compiled driver on every recorded trace)",
+    "quiescent-complete final state (Pool.checkTrace, run by the compiled driver on every recorded trace); a second, independent pass "
+    "keyed on event kinds only (Pool.monitor in Model/PoolMon.lean): push/pop/clear/stop-set/predicate inside a critical section of the "
+    "emitting thread, thread identity <-> worker index a bijection over the whole trace, no thread both worker and client, on the "
+    "parallel path the operator runs only in the pool's worker thread of the tnum it receives, between run_begin and run_end, exactly "
+    "one operator call per task, every position of every map call invoked exactly once before the call is left and never after "
+    "(throwing tasks, raise on/off included), pool size = clamp(asked, 1, max_size())",
+    "hand-written refinements Model/PoolSection.lean: section_t (block(raise) future by future, rethrow, ~section_t, unguarded exit), "
+    "pool_t constructors / max_size / size, and the fine-grained wait (predicate evaluation and blocking as two events) used for the "
+    "counterexample to writing m_stop outside the mutex; the section model is tied to the code through the base model only "
+    "(exit_refines_cReturn: its exit IS the base model's cReturn, which the trace checker validates on every trace)",
     "hook H1 in /repo (NANO_VERIF) reports the synchronisation events in program order; the harness's pseudo-events (operator begin/"
     "arguments/end, call begin/return) are logged through the same atomic sequence counter",
     "std::mutex / condition_variable / packaged_task / shared_future behave as the model assumes (DESIGN.md §3)",
     "tools/props/c17.py generator + python oracle; harness/c17.cpp monitors and watchdog; g++/libstdc++; ThreadSanitizer in the thorough tier",
 ]
 ASSUMPTIONS = [
+    "one critical section = one atomic event: checked per trace (lock discipline, twice) and, for the one place where it matters "
+    "(predicate evaluation vs blocking in wait), proved: the fine-grained model refines the atomic one as long as m_stop is written "
+    "under the mutex (locked_fine_grained_no_lost_wakeup); without that proviso the wake-up is lost (stop_without_lock_loses_wakeup)",
     "usage contract: nobody submits work once ~pool_t has started (cPush is disabled when stop); chunksize >= 1 (assert in map)",
     "the model's wRunEnd (future ready) is folded at the operator's last statement: the future becomes ready inside "
     "std::packaged_task::operator() between that point and the hook's run_end",
     "the woken thread of notify_one is not observable: the trace checker picks any sleeping worker (wWake is always enabled, so any choice gives a path)",
-    "fairness / liveness beyond quiescent_complete is not proved; hangs are searched for by the watchdog under schedule fuzzing (testing)",
+    "liveness: deadlock_free (some non-wake event of the pool is enabled in every incomplete reachable state) and the variant function "
+    "(progress_measure_decreases, run_without_new_calls_bounded) are proved for the model; that the OS scheduler eventually runs an "
+    "enabled thread (weak fairness) and that spurious wake-ups are finitely many is assumed; hangs of the real code are searched for by "
+    "the watchdog under schedule fuzzing and the directed schedules (testing)",
+    "std::thread::hardware_concurrency() may answer any number, 0 included (pool_size_bounds covers all); the value the library reports "
+    "as max_size() is taken from the run",
     "the C++ memory model is outside the model; data races are searched for by the ThreadSanitizer flavour of the thorough tier (testing)",
 ]
 RULE = ("exhaustive small scenarios (pool sizes {0,1,2,3,4,8,16,17}, elements 0..3 and 5, per-element and chunk sizes 1/2/n/n+1, raise on/off, "
@@ -44,7 +67,11 @@ RULE = ("exhaustive small scenarios (pool sizes {0,1,2,3,4,8,16,17}, elements 0.
         "concurrent submitters with 1..3 calls each, enqueue with immediate/deferred/post-destruction waits, slow tasks so that the pool is destroyed "
         "idle/busy/with queued tasks, delays and spurious wake-ups injected at every synchronisation event); a scenario is non-trivial when a "
         "map call with >= 2 tasks goes through the queue of a pool with >= 2 workers (the evidence's distribution also counts the scenarios in "
-        "which >= 2 workers really ran tasks of one call and >= 1 worker slept); distinct by op text")
+        "which >= 2 workers really ran tasks of one call and >= 1 worker slept); default-constructed pools; DIRECTED schedules for pool "
+        "sizes 1, 2, 3: the hook parks a worker that has just evaluated its wait predicate to false (mutex held, not yet blocked) until "
+        "the destructor (mode 1) or a pushing client (mode 2) arrives - the client first makes a worker re-evaluate its predicate and "
+        "waits until it is parked -, the evidence counts how often each interleaving was reached (run/directed_*); maps straddling the "
+        "thresholds elements = 128 * size and 1024 chunks, both overloads, traced (run/large/*); distinct by op text")
 FLAVOUR = {"quick": "plain", "thorough": "tsan"}
 HARNESS_ENV = {"TSAN_OPTIONS": "halt_on_error=1:exitcode=66:second_deadlock_stack=1"}
 HARNESS_TIMEOUT = 1500
@@ -52,7 +79,13 @@ BROKEN = "X"
 
 # run statistics gathered by oracle() (the non-trivial rule refers to what really happened in the run)
 STATS = {"multi_worker_calls": 0, "scenarios_with_sleep": 0, "scenarios_with_drop": 0, "traces_validated_against_impl": 0,
-         "scenarios_without_trace": 0, "spurious_wakeups_injected": 0}
+         "scenarios_without_trace": 0, "spurious_wakeups_injected": 0,
+         # directed schedules: a worker parked between its predicate evaluation and its wait while ...
+         "directed_scenarios": 0, "directed_parks": 0,
+         "directed_destroy_reached/pool1": 0, "directed_destroy_reached/pool2+": 0,     # ... ~pool_t arrives (scenarios)
+         "directed_push_reached/pool1": 0, "directed_push_reached/pool2+": 0,           # ... a client arrives with a push (scenarios)
+         "directed_destroy_hits": 0, "directed_push_hits": 0,                           # (parks ended that way)
+         "large/elements>128*size": 0, "large/chunks>1024": 0, "large/traced": 0}
 
 
 # ---------------------------------------------------------------------------------------------------------------
@@ -93,11 +126,18 @@ def parse_op(line):
                 prog.append(dict(kind="e", raise_=raise_, work=work, throws=[0] if th else [], waitmode=wm))
         sc["progs"].append(prog)
     sc["size"] = None
+    sc["max"] = None
     sc["notrace"] = False
+    sc["dir"] = sc["ty"] // 10
     if not t.done():
         assert t.s() == "size"
         sc["size"] = t.int()
-        sc["notrace"] = (not t.done()) and t.s() == "notrace"
+        if not t.done():
+            k = t.s()
+            if k == "max":
+                sc["max"] = t.int()
+                k = t.s() if not t.done() else ""
+            sc["notrace"] = k == "notrace"
     return sc
 
 
@@ -201,6 +241,45 @@ def gen(rng, tier):
         ops.append(show_op(scenario(rng, asked, progs, d[0], d[1], rng.choice([0, 0, 10, 60]), rng.choice([0, 0, 0, 200, 2000]),
                                     rng.below(3))))
 
+    # default constructor (asked = 1000)
+    for rep in range(3 if not thorough else 8):
+        d = rand_delay(rng)
+        ops.append(show_op(scenario(rng, 1000, [[rand_map(rng, 200) for _ in range(rng.range(1, 2))]], d[0], d[1], rng.choice([0, 10]))))
+
+    # directed schedules (harness header): a worker is parked between its predicate evaluation and its wait while
+    # (mode 1) the destructor / (mode 2) a pushing client arrives; pool size 1 first (with one worker there is nobody else
+    # to pick the work up or to see the stop flag)
+    for rep in range(6 if not thorough else 20):
+        for asked in (1, 1, 2, 3):
+            # mode 1: destroy a freshly built pool / right after the last task / after an idle period with a spurious wake-up
+            progs = rng.choice([[[]], [[]], [[call_e(rng.below(2), rng.choice([0, 50]), 0, rng.choice([0, 1]))]],
+                                [[call_m(rng.range(2, 6), rng.choice([0, 1, 2]), 1, 0, rand_throws(rng, 2))]],
+                                [[call_e(1, 0, 0, 0), call_e(0, 0, rng.below(2), 0)]]])
+            ops.append(show_op(scenario(rng, asked, progs, 0, 1, rng.choice([0, 0, 40]), rng.choice([0, 0, 200]), 10 + rng.below(3))))
+        for asked in (1, 1, 2):
+            # mode 2 (and 3): enqueue / map arriving while the worker is parked
+            prog = [rng.choice([call_e(rng.below(2), 0, rng.chance(0.2), rng.choice([0, 0, 1])),
+                                call_m(rng.range(2, 5), rng.choice([0, 1]), rng.below(2), 0, rand_throws(rng, 2))])
+                    for _ in range(rng.range(2, 5))]
+            progs = [prog] if rng.chance(0.6) else [prog, [call_e(1, 0, 0, 0) for _ in range(rng.range(1, 3))]]
+            ops.append(show_op(scenario(rng, asked, progs, 0, 1, 0, 0, rng.choice([20, 20, 30]) + rng.below(3))))
+
+    # thresholds two seeded changes keyed on: elements around 128 * size, number of chunks around 1024 (traced: the
+    # trace of ~1000 tasks fits), both overloads, with and without a throwing task
+    thr = []
+    for asked in ([2, 3, 16] if not thorough else [2, 3, 4, 5, 8, 16]):
+        for n in (128 * asked - 1, 128 * asked, 128 * asked + 1, 129 * asked + 7):
+            thr.append((asked, n, rng.choice([0, 1])))
+            if thorough:
+                thr.append((asked, n, rng.choice([2, 3, 5])))
+    for asked, chunksn, c in [(2, 1023, 1), (3, 1024, 1), (2, 1025, 0), (4, 1026, 1), (16, 1025, 2), (2, 1030, 3), (3, 2048, 1)]:
+        n = chunksn * c - rng.below(c) if c > 0 else chunksn
+        thr.append((asked, n, c))
+    for asked, n, c in thr:
+        nops = len(ranges_of(dict(kind="m", n=n, c=c)))
+        throws = rng.choice([[], [], [rng.below(nops)], [0, nops - 1]])
+        ops.append(show_op(scenario(rng, asked, [[call_m(n, c, rng.chance(0.6), 0, throws)]], rng.choice([0, 0, 20]), 5, 0, 0, rng.below(3))))
+
     # large maps: elements up to 5000 (traced while the trace fits, monitors only otherwise)
     big = [(16, 5000, 0), (7, 5000, 1), (4, 4999, 7), (16, 3000, 3001), (2, 5000, 5000), (1, 5000, 0),
            (16, 2000, 0), (3, 2200, 1), (8, 4000, 2)]
@@ -238,6 +317,59 @@ def unrle(s):
     return out
 
 
+def trace_oracle(aug, sc, size):
+    """the property's clauses read off the RAW event trace (independent of the harness's flag-based monitors and of the Lean
+    checkers): operator intervals [op-begin, op-end] of one call with the same worker id never overlap; on the parallel
+    path the operator runs in a pool thread whose run-begin events carry exactly that worker id (thread <-> id is a
+    bijection), never in a client thread; a call is left only after every operator interval of the call is closed"""
+    k = aug.find(" trace ")
+    if k < 0:
+        return None
+    toks = aug[k + 7:].split()
+    n = int(toks[0])
+    calls = [c for p in sc["progs"] for c in p]
+    tid2w, w2tid = {}, {}
+    open_op = {}        # tid -> (call, tnum)
+    busy = {}           # (call, tnum) -> tid
+    open_cnt = [0] * len(calls)
+    left = [False] * len(calls)
+    for i in range(n):
+        tid, kind, a, b = int(toks[1 + 4 * i]), int(toks[2 + 4 * i]), int(toks[3 + 4 * i]), int(toks[4 + 4 * i])
+        if kind in (6, 7, 8, 9, 10, 11):      # pred, pop, clear, run_begin, run_end, worker_exit carry the worker index
+            if tid2w.setdefault(tid, b) != b or w2tid.setdefault(b, tid) != tid:
+                return f"worker-identity: thread {tid} / worker index {b}: thread <-> worker index is not a bijection (event {i})"
+            if b >= size or tid < 10:
+                return f"worker-identity: worker index {b} (pool {size}) in thread {tid} (event {i})"
+        elif kind == 22:                       # op-begin: a = call, b = tnum
+            if a >= len(calls):
+                return f"format: operator of unknown call {a}"
+            if left[a]:
+                return f"early-return: call {a}: an operator call started after the call had been left (event {i})"
+            if seq_path(calls[a], size):
+                if tid >= 10 or b != 0:
+                    return f"tnum-bound: call {a} (sequential path): operator in thread {tid} with tnum {b}"
+            elif tid2w.get(tid) != b:
+                return (f"caller-runs-task: call {a} (parallel path): the operator got tnum {b} in thread {tid}, which is not the "
+                        f"pool's worker thread {b} (event {i})")
+            if (a, b) in busy:
+                return f"tnum-exclusive: call {a}: worker id {b} in use by threads {busy[(a, b)]} and {tid} at the same time (event {i})"
+            busy[(a, b)] = tid
+            open_op[tid] = (a, b)
+            open_cnt[a] += 1
+        elif kind == 24:                       # op-end
+            cb = open_op.pop(tid, None)
+            if cb is None:
+                return f"format: op-end without op-begin in thread {tid}"
+            busy.pop(cb, None)
+            open_cnt[cb[0]] -= 1
+        elif kind == 25:                       # call-ret: a = call
+            if a < len(calls):
+                if open_cnt[a] != 0:
+                    return f"early-return: call {a} was left while {open_cnt[a]} of its operator calls were still running (event {i})"
+                left[a] = True
+    return None
+
+
 def oracle(aug, res):
     if not res.startswith("ok "):
         return f"no-answer: implementation did not answer ok: {res[:120]}"
@@ -254,6 +386,21 @@ def oracle(aug, res):
         return f"pool-size: size() = {size} for {sc['asked']} requested threads (max_size {maxsize})"
     if int(head["qmis"]) != 0:
         return "format: events from more than one queue"
+    why = trace_oracle(aug, sc, size)
+    if why:
+        return why
+    if maxsize < 1 or (sc["max"] is not None and sc["max"] != maxsize):
+        return f"pool-size: max_size() = {maxsize}"
+    if sc["asked"] == 1000 and size != maxsize:
+        return f"pool-size: the default constructor made {size} workers, max_size() = {maxsize}"
+    # directed schedules: with the lock discipline nobody gets past the mutex while a worker is parked between its
+    # predicate evaluation and its wait
+    if int(head.get("d1x", 0)) != 0:
+        return (f"stop-outside-lock: m_stop was written {head['d1x']} time(s) while a worker held the mutex between its predicate "
+                f"evaluation and its wait (lost wake-up: the worker blocks after the destructor's notify_all)")
+    if int(head.get("d2x", 0)) != 0:
+        return (f"push-outside-lock: a task was pushed {head['d2x']} time(s) while a worker held the mutex between its predicate "
+                f"evaluation and its wait")
     calls = [c for p in sc["progs"] for c in p]
     if len(secs) - 1 != len(calls) or int(summ["calls"]) != len(calls):
         return "format: number of calls"
@@ -333,6 +480,27 @@ def oracle(aug, res):
     STATS["scenarios_with_drop"] += 1 if queued - ran_queued > 0 else 0
     STATS["spurious_wakeups_injected"] += int(head["spur"])
     STATS["scenarios_without_trace" if sc["notrace"] else "traces_validated_against_impl"] += 1
+    if sc["dir"]:
+        STATS["directed_scenarios"] += 1
+        STATS["directed_parks"] += int(head.get("parks", 0))
+        grp = "pool1" if size == 1 else "pool2+"
+        if int(head.get("d1", 0)) > 0:
+            STATS["directed_destroy_reached/" + grp] += 1
+        if int(head.get("d2", 0)) > 0:
+            STATS["directed_push_reached/" + grp] += 1
+        STATS["directed_destroy_hits"] += int(head.get("d1", 0))
+        STATS["directed_push_hits"] += int(head.get("d2", 0))
+    big = False
+    for cl in calls:
+        if cl["kind"] == "m" and not seq_path(cl, size):
+            if cl["n"] > 128 * size:
+                STATS["large/elements>128*size"] += 1
+                big = True
+            if len(ranges_of(cl)) > 1024:
+                STATS["large/chunks>1024"] += 1
+                big = True
+    if big and not sc["notrace"]:
+        STATS["large/traced"] += 1
     return None
 
 
@@ -356,7 +524,34 @@ def static_checks():
         if k != n:
             bad.append(f"hook H1: event `{ev}` is emitted at {k} places (the trace automaton of Pool.checkTrace expects {n})")
     bad += guarded_twins(h, "parallel.h") + guarded_twins(c, "parallel.cpp")
+    # the small functions modelled literally in Model/PoolSection.lean (section_t's lifetime, the pool size): their text,
+    # hook statements removed, must be the text the model was written against
+    literal = {
+        "section_t::block (Pool.step2 bWait/bDone)":
+            "void section_t::block(const bool raise){for(const auto& future:*this){if(future.valid()){raise?future.get():future.wait();}}}",
+        "section_t::~section_t (Pool.step2 dWait/exit, Pool.dtorSees)": "section_t::~section_t(){block(false);}",
+        "pool_t::pool_t() (Pool.defaultSize)": "pool_t::pool_t():pool_t(max_size()){}",
+        "pool_t::max_size (Pool.maxSize)":
+            "size_t pool_t::max_size(){return std::max(size_t(1),static_cast<size_t>(std::thread::hardware_concurrency()));}",
+        "pool_t::pool_t(threads) (Pool.clampSize)": "const auto n_workers=std::clamp(threads,size_t(1),max_size());",
+    }
+    cn = _norm2(re.sub(r"NANO_VERIF_POOL\((?:[^()]|\((?:[^()]|\([^()]*\))*\))*\);", "", c))
+    for name, text in literal.items():
+        if cn.count(_norm2(text)) != 1:
+            bad.append(f"parallel.cpp: the text of {name} is not the one the Lean model was written against (expected `{text}`)")
+    hn = _norm2(h)
+    for name, text in {"pool_t::size (St.nw)": "size_t size() const { return m_threads.size(); }",
+                       "section_t base (the futures of one map call)": "class NANO_PUBLIC section_t : public std::vector<future_t>",
+                       "pool_t::enqueue (forwards to queue_t::enqueue)": "return m_queue.enqueue(std::forward<tfunction>(f));"}.items():
+        if hn.count(_norm2(text)) != 1:
+            bad.append(f"parallel.h: the text of {name} is not the one the Lean model was written against (expected `{text}`)")
     return bad
+
+
+def _norm2(s):
+    """whitespace-insensitive, but keeps one blank between two identifier characters"""
+    s = re.sub(r"\s+", " ", s)
+    return re.sub(r" ?([^A-Za-z0-9_ ]) ?", r"\1", s).strip()
 
 
 def _norm(s):
@@ -419,7 +614,9 @@ def distribution(ops):
         d[k] = d.get(k, 0) + 1
     for op in ops:
         sc = parse_op(op)
-        inc(f"pool/{sc['asked']}")
+        inc(f"pool/{sc['asked']}" if sc["asked"] != 1000 else "pool/default-constructor")
+        if sc["ty"] >= 10:
+            inc(f"directed/mode{sc['ty'] // 10}/pool{sc['asked']}")
         inc(f"submitters/{len(sc['progs'])}")
         inc("delays/on" if sc["dprob"] else "delays/off")
         for p in sc["progs"]:
